@@ -96,7 +96,9 @@ func (ih *ImportHandler) ExtractTypeRef(typ types.Type) string {
 		// *types.Interface is usually handled here too.
 		// "*types.Basic"s e.g. string come out as "untyped string"; we need to drop
 		//  that part... Not sure why this is how the type information is conveyed :-/.
-		return strings.TrimPrefix(t.String(), "untyped ")
+		// An untyped constant is referenced by its default type ("untyped float" is float64,
+		// there is no type named float).
+		return strings.TrimPrefix(types.Default(t).String(), "untyped ")
 	}
 }
 
